@@ -2280,7 +2280,12 @@ class Protocol(utils.EventEmitter):
                 self.receive_command_state.command_type = command.ctype
                 self.receive_command_state.transaction_label = transaction_label
 
-            self.command_pdu_assembler.on_pdu(command.vendor_dependent_data)
+            try:
+                self.command_pdu_assembler.on_pdu(command.vendor_dependent_data)
+            finally:
+                if self.command_pdu_assembler.pdu_id is None:
+                    # Not in the middle of a fragmented PDU (any more)
+                    self.receive_command_state = None
             return
 
         if isinstance(command, avc.PassThroughCommandFrame):
